@@ -285,6 +285,16 @@ CORPUS = [
     {"name": "corpus-shared-data-entry-set-back-p", "limit": 128, "seed": 4251, "nedits": 3,
      "script": [["importance", 1, "n", 5.0], ["importance", 1, "p", 5.0], ["importance", 1, "p", 1.0]],
      "text": "shared data-block entry\n1 0 -1\n2 0 1 -2\n3 0 2\n\n1 so 1\n2 so 2\n\nmode n p\nimp:n,p 1 1 0\n\n"},
+    # seeded C19e (and C01b): a lattice cell filled with a matrix of universes that is not symmetric under an index swap -
+    # a writer whose index order differs from the reader's permutes the matrix on every generation
+    {"name": "corpus-lattice-matrix", "limit": 128, "seed": 77120, "nedits": 0, "script": [],
+     "text": "lattice matrix\n1 0 -1 u=10 lat=1 fill=0:1 0:2 0:0 2 3 4 5 6 7 imp:n=1\n2 0 -2 u=2 imp:n=1\n3 0 -2 u=3 imp:n=1\n"
+             "4 0 -2 u=4 imp:n=1\n5 0 -2 u=5 imp:n=1\n6 0 -2 u=6 imp:n=1\n7 0 -2 u=7 imp:n=1\n8 0 -3 fill=10 imp:n=1\n9 0 3 imp:n=0\n\n"
+             "1 rpp -1 1 -1 1 -1 1\n2 so 5\n3 so 50\n\nmode n\n\n"},
+    {"name": "corpus-lattice-matrix-3d", "limit": 80, "seed": 77121, "nedits": 0, "script": [],
+     "text": "lattice matrix 3d\n1 0 -1 u=10 lat=1 fill=0:1 -1:0 0:1 2 3 4 5 6 7 2 4 imp:n=1\n2 0 -2 u=2 imp:n=1\n3 0 -2 u=3 imp:n=1\n"
+             "4 0 -2 u=4 imp:n=1\n5 0 -2 u=5 imp:n=1\n6 0 -2 u=6 imp:n=1\n7 0 -2 u=7 imp:n=1\n8 0 -3 fill=10 imp:n=1\n9 0 3 imp:n=0\n\n"
+             "1 rpp -1 1 -1 1 -1 1\n2 so 5\n3 so 50\n\nmode n\n\n"},
     # 3f161a1: a line break after a cell modifier's value was replaced by a blank (generation 2 differed at 80 columns)
     {"name": "corpus-modifier-line-break", "limit": 80, "seed": 891262, "nedits": 0, "script": [],
      "text": "line break after vol\n837 0 (927 :     113 ) 8   113    113 -8   imp:n=2.0000     Imp:P=1 vol=31.0\n     U 20\n"
